@@ -83,8 +83,8 @@ MAX_PAIRS = 1_500_000  # points x windows per call (workload keeps below; the mo
 
 def plan(tier):
     if tier == "quick":
-        return collections.OrderedDict(rolling=140, rolling_edge=50, expanding=80, expanding_edge=30)
-    return collections.OrderedDict(rolling=2800, rolling_edge=1000, expanding=1600, expanding_edge=600)
+        return collections.OrderedDict(rolling=140, rolling_edge=50, expanding=80, expanding_edge=30, history=40)
+    return collections.OrderedDict(rolling=2800, rolling_edge=1000, expanding=1600, expanding_edge=600, history=800)
 
 
 # ----------------------------------------------------------------------
@@ -759,6 +759,171 @@ def _expanding_edge_case(run, vc, rng):
                                   "selected_per_size": [int(np.size(i[0])) for i in out]})
 
 
+# ----------------------------------------------------------------------
+# call histories: the SAME ndarray objects, modified in place between calls
+# ----------------------------------------------------------------------
+def _history_set(rng):
+    n_pts = _composite(rng, 12, 260)
+    east, north = gen.cloud(rng, n_pts, scale=gen.log_uniform(rng, 1.0, 1e4), offset_factor=float(rng.choice([0.0, 1.0, 30.0])))
+    flat = [east, north] + _extras(rng, east)
+    if rng.random() < 0.55:
+        rows = [r for r in range(2, min(n_pts, 40)) if n_pts % r == 0]
+        r = int(rng.choice(rows)) if rows else 1
+        flat = [a.reshape(r, n_pts // r) for a in flat]
+    arrays = tuple(np.array(a, dtype="float64", order="C", copy=True) for a in flat)  # own, writable, fresh objects
+    w, e, s, n = float(east.min()), float(east.max()), float(north.min()), float(north.max())
+    pad = rng.uniform(0.05, 0.3, 4)
+    region = [w - pad[0] * (e - w), e + pad[1] * (e - w), s - pad[2] * (n - s), n + pad[3] * (n - s)]
+    return {"arrays": arrays, "region": region, "box": (w, e, s, n), "dirty": False, "calls": [], "ids": tuple(id(a) for a in arrays)}
+
+
+def _history_mutate(run, rng, hset):
+    """Change the contents of the very same ndarray objects."""
+    east, north = hset["arrays"][0], hset["arrays"][1]
+    w, e, s, n = hset["box"]
+    wid, hei = e - w, n - s
+    op = int(rng.integers(0, 7))
+    if op == 0:
+        east += rng.uniform(-0.25, 0.25) * wid
+        north += rng.uniform(-0.25, 0.25) * hei
+        name = "iadd_shift"
+    elif op == 1:  # rescale about the box centre, all in place
+        f = rng.uniform(0.5, 1.2)
+        for arr, mid in ((east, 0.5 * (w + e)), (north, 0.5 * (s + n))):
+            arr -= mid
+            arr *= f
+            arr += mid
+        name = "imul_scale"
+    elif op == 2:  # slice assignment through the flat view
+        k = int(rng.integers(1, east.size + 1))
+        east.reshape(-1)[:k] = rng.uniform(w, e, k)
+        north.reshape(-1)[:k] = rng.uniform(s, n, k)
+        name = "slice_assignment"
+    elif op == 3 and east.ndim == 2:  # partial overwrite of a 2-D array: one row or one column
+        if rng.random() < 0.5:
+            i = int(rng.integers(0, east.shape[0]))
+            east[i, :] = rng.uniform(w, e, east.shape[1])
+            north[i, :] = rng.uniform(s, n, east.shape[1])
+        else:
+            j = int(rng.integers(0, east.shape[1]))
+            east[:, j] = rng.uniform(w, e, east.shape[0])
+            north[:, j] = rng.uniform(s, n, east.shape[0])
+        name = "partial_overwrite_2d"
+    elif op == 4:  # shuffle one coordinate only: every point changes partner
+        rng.shuffle(east.reshape(-1))
+        name = "shuffle_one_coordinate"
+    elif op == 5:  # exchange the contents of the two arrays
+        tmp = east.copy()
+        east[...] = w + (north - s) * (wid / hei if hei else 1.0)
+        north[...] = s + (tmp - w) * (hei / wid if wid else 1.0)
+        name = "contents_exchanged"
+    else:  # everything replaced
+        east[...] = rng.uniform(w, e, east.shape)
+        north[...] = rng.uniform(s, n, east.shape)
+        name = "full_overwrite"
+    assert tuple(id(a) for a in hset["arrays"]) == hset["ids"]
+    hset["dirty"] = True
+    run.count("history:inplace_" + name)
+
+
+def _history_rolling(run, vc, rng, hset, reuse=None):
+    """reuse: None = new parameters, 'same' = identical to the previous rolling call on this set, or which part changes."""
+    region = hset["region"]
+    side = min(region[1] - region[0], region[3] - region[2])
+    prev = hset.get("rolling")
+    if reuse is not None and prev is not None:
+        kwargs = dict(prev)
+        if reuse == "other_size":
+            kwargs["size"] = float(side * rng.uniform(0.1, 0.6))
+        elif reuse == "other_step":
+            if "shape" in kwargs:
+                kwargs["shape"] = (int(rng.integers(2, 12)), int(rng.integers(2, 12)))
+            else:
+                kwargs["spacing"] = float(kwargs["size"] * rng.uniform(0.3, 1.4))
+        elif reuse == "other_adjust" and "spacing" in kwargs:
+            kwargs["adjust"] = "region" if kwargs.get("adjust", "spacing") == "spacing" else "spacing"
+        elif reuse == "inferred_region":
+            kwargs.pop("region", None)
+            x, y = hset["arrays"][0], hset["arrays"][1]
+            now = min(float(x.max() - x.min()), float(y.max() - y.min()))
+            kwargs["size"] = float(min(kwargs["size"], now * rng.uniform(0.2, 0.9)))
+            if not kwargs["size"] > 0:
+                return
+    else:
+        size = float(side * rng.uniform(0.1, 0.6))
+        kwargs = {"size": size, "region": list(region)}
+        if rng.random() < 0.6:
+            kwargs["spacing"] = float(size * rng.uniform(0.3, 1.4))
+            kwargs["adjust"] = str(rng.choice(["spacing", "region"]))
+        else:
+            kwargs["shape"] = (int(rng.integers(2, 12)), int(rng.integers(2, 12)))
+    key = repr(sorted(kwargs.items()))
+    if hset["dirty"]:
+        run.count("history:rolling_call_on_arrays_modified_in_place")
+        if key in hset["calls"]:
+            run.count("history:rolling_same_parameters_after_inplace_change")
+    if prev is not None and reuse in ("other_size", "other_step", "other_adjust") and kwargs != prev:
+        run.count("history:rolling_same_region_" + reuse)
+    hset["calls"].append(key)
+    if "region" in kwargs:
+        hset["rolling"] = dict(kwargs)
+    out = _call_rolling(run, vc, hset["arrays"], **kwargs)
+    run.count("history:rolling_calls")
+    return out
+
+
+def _history_expanding(run, vc, rng, hset, reuse=False):
+    w, e, s, n = hset["box"]
+    prev = hset.get("expanding")
+    if reuse and prev is not None:
+        centre, sizes = prev
+    else:
+        centre = (float(rng.uniform(w, e)), float(rng.uniform(s, n)))
+        sizes = _sizes_list(rng, max(e - w, n - s) * 0.6, k=int(rng.integers(2, 6)))
+        hset["expanding"] = (centre, sizes)
+    key = repr((centre, np.asarray(sizes).tolist()))
+    if hset["dirty"]:
+        run.count("history:expanding_call_on_arrays_modified_in_place")
+        if key in hset["calls"]:
+            run.count("history:expanding_same_parameters_after_inplace_change")
+    hset["calls"].append(key)
+    run.count("history:expanding_calls")
+    return vc.expanding_window(hset["arrays"], center=centre, sizes=sizes)
+
+
+def _history_case(run, vc, rng):
+    """
+    rolling_window / expanding_window called repeatedly on the same coordinate objects whose contents change in place in
+    between, interleaved with a second coordinate set and with the two functions alternating. Every return is judged by the
+    monitors against the arrays' contents at return time, so anything cached on object identity (or on region/shape only)
+    shows up as stale windows or stale centres.
+    """
+    sets = [_history_set(rng), _history_set(rng)]
+    first = sets[0]
+    # fixed backbone: call, change in place, call again with the same parameters
+    _history_rolling(run, vc, rng, first)
+    _history_expanding(run, vc, rng, first)
+    _history_mutate(run, rng, first)
+    _history_rolling(run, vc, rng, first, reuse="same")
+    _history_expanding(run, vc, rng, first, reuse=True)
+    _history_rolling(run, vc, rng, sets[1])
+    for _ in range(int(rng.integers(8, 14))):
+        hset = sets[0] if rng.random() < 0.65 else sets[1]
+        action = rng.random()
+        if action < 0.3:
+            _history_mutate(run, rng, hset)
+        elif action < 0.7:
+            reuse = rng.choice(["same", "same", "other_size", "other_step", "other_adjust", "inferred_region", "new"])
+            _history_rolling(run, vc, rng, hset, reuse=None if reuse == "new" else str(reuse))
+        else:
+            _history_expanding(run, vc, rng, hset, reuse=bool(rng.random() < 0.6))
+    out = _history_rolling(run, vc, rng, first, reuse="same")
+    run.count("history:cases")
+    if out is not None:
+        run.sample("history", {"coordinates_now": list(first["arrays"][:2]), "calls_on_this_set": len(first["calls"]),
+                               "last_rolling_kwargs": first.get("rolling"), "centres_shape": list(out[0][0].shape)})
+
+
 def run_case(run, tap, stream, index, rng):
     import verde  # noqa: F401
     import verde.coordinates as vc
@@ -773,6 +938,9 @@ def run_case(run, tap, stream, index, rng):
         _expanding_case(run, vc, rng)
     elif stream == "expanding_edge":
         _expanding_edge_case(run, vc, rng)
+    elif stream == "history":
+        for _ in range(2):
+            _history_case(run, vc, rng)
     else:
         raise ValueError(stream)
 
